@@ -9,8 +9,8 @@ import (
 	"sync"
 
 	admissionv1 "k8s.io/api/admission/v1"
-	compbasemetrics "k8s.io/component-base/metrics"
 	"k8s.io/apimachinery/pkg/runtime/schema"
+	compbasemetrics "k8s.io/component-base/metrics"
 	"k8s.io/pod-security-admission/api"
 	"k8s.io/pod-security-admission/metrics"
 	"psaverif/internal/cq"
